@@ -170,7 +170,8 @@ pub struct Vt<I: 'static> {
     pub ser: Option<fn(I, Fmt) -> Option<Result<Vec<u8>, String>>>,
     pub arbitrary: Option<fn(&[u8]) -> Result<I, String>>,
 
-    pub display: Option<fn(I) -> Option<String>>,
+    /// formatted under the fixed spec list of `glue::fmt_all` (element 0 is plain `{}`)
+    pub display: Option<fn(I) -> Option<Vec<String>>>,
     pub as_ref: Option<fn(I) -> Option<I>>,
     pub deref: Option<fn(I) -> Option<I>>,
     pub borrow: Option<fn(I) -> Option<I>>,
@@ -325,6 +326,10 @@ pub trait InnerTy:
     /// hash of the borrowed form with the fixed-key hasher (what `Borrow` requires `Hash` to agree with)
     fn hash_borrowed(&self) -> Option<u64>;
     fn display_(&self) -> Option<String>;
+    /// the inner value under the spec list of `glue::fmt_all`
+    fn display_all_(&self) -> Option<Vec<String>> {
+        None
+    }
     fn parse_(s: &str) -> Option<Result<Self, String>>;
     fn inner_eq(&self, o: &Self) -> bool;
     fn inner_partial_cmp(&self, o: &Self) -> Option<Option<Ordering>>;
@@ -352,6 +357,7 @@ macro_rules! impl_int {
             fn pcmp(&self, o: &Self) -> Option<Ordering> { Some(self.cmp(o)) }
             fn hash_borrowed(&self) -> Option<u64> { Some(fixed_hash(self)) }
             fn display_(&self) -> Option<String> { Some(self.to_string()) }
+            fn display_all_(&self) -> Option<Vec<String>> { Some(crate::glue::fmt_all(self)) }
             fn parse_(s: &str) -> Option<Result<Self, String>> { Some(s.parse::<$t>().map_err(|e| format!("{e:?}"))) }
             fn inner_eq(&self, o: &Self) -> bool { self == o }
             fn inner_partial_cmp(&self, o: &Self) -> Option<Option<Ordering>> { Some(self.partial_cmp(o)) }
@@ -403,6 +409,9 @@ macro_rules! impl_float {
             fn display_(&self) -> Option<String> {
                 Some(self.to_string())
             }
+            fn display_all_(&self) -> Option<Vec<String>> {
+                Some(crate::glue::fmt_all(self))
+            }
             fn parse_(s: &str) -> Option<Result<Self, String>> {
                 Some(s.parse::<$t>().map_err(|e| format!("{e:?}")))
             }
@@ -447,6 +456,9 @@ impl InnerTy for String {
     }
     fn display_(&self) -> Option<String> {
         Some(self.clone())
+    }
+    fn display_all_(&self) -> Option<Vec<String>> {
+        Some(crate::glue::fmt_all(self))
     }
     fn parse_(_s: &str) -> Option<Result<Self, String>> {
         None
@@ -519,6 +531,9 @@ impl InnerTy for Point {
     }
     fn display_(&self) -> Option<String> {
         Some(self.to_string())
+    }
+    fn display_all_(&self) -> Option<Vec<String>> {
+        Some(crate::glue::fmt_all(self))
     }
     fn parse_(s: &str) -> Option<Result<Self, String>> {
         Some(s.parse::<Point>().map_err(|e| format!("{e:?}")))
